@@ -84,6 +84,15 @@ pub fn run(ctx: &mut Ctx, _replay: Option<&[String]>) {
         let l = BpskDemodulator::from_noise_sigma(s).demodulate(&[re]);
         ctx.emit(&format!("c14 demb {} {}", hx(s), hx(re)), &hx(l[0]), true, &["bpsk-demodulate-extreme-range"]);
     }
+    // 8PSK: samples very close to the origin and very far from the constellation, at small and large noise ("every received sample")
+    for _ in 0..ctx.scale(1500, 60_000) {
+        let s = 10f64.powf(6.0 * rng.f64_unit() - 5.0);
+        let mag = if rng.chance(1, 2) { 10f64.powf(-10.0 + 9.0 * rng.f64_unit()) } else { 10f64.powf(3.0 * rng.f64_unit()) };
+        let ang = 6.283185307179586 * rng.f64_unit();
+        let (re, im) = (mag * ang.cos(), mag * ang.sin());
+        let l = Psk8Demodulator::from_noise_sigma(s).demodulate(&[Complex::new(re, im)]);
+        ctx.emit(&format!("c14 dem8 {} {} {}", hx(s), hx(re), hx(im)), &format!("{} {} {}", hx(l[0]), hx(l[1]), hx(l[2])), true, &["8psk-demodulate-extreme-range"]);
+    }
     for _ in 0..ctx.scale(6000, 1_000_000) {
         let s = (0.05f64.ln() + rng.f64_unit() * (10.0f64 / 0.05).ln()).exp();
         let re = 12.0 * rng.f64_unit() - 6.0;
